@@ -788,6 +788,58 @@ fn part_bc(v: &Verdicts, layout: &Layout, p: usize, thorough: bool) -> u64 {
                     judge_all("fd-read", &before, &after, &db, &da, Some(written), extra, &rp);
                 }
             }
+            // guest memory drained into a descriptor through the real raw-fd adapter: write(2)
+            // full, short, failing at once or after a prefix, interrupted, accepting nothing.
+            // Whatever the sink does, guest memory is only read: nothing changes, nothing is marked.
+            for wscript in 0..6usize {
+                for exact in [false, true] {
+                    set_state(&init);
+                    prep(Start::Clean);
+                    let before = dump();
+                    let db = dirty();
+                    let mut sink = crate::layouts::tempfile().unwrap();
+                    let fd = sink.as_raw_fd();
+                    let calls = std::rc::Rc::new(std::cell::Cell::new(0usize));
+                    let c2 = calls.clone();
+                    let handler = Box::new(move |r: &IoReq| -> IoAnswer {
+                        if r.fd != fd || r.is_read {
+                            return IoAnswer::Pass;
+                        }
+                        let k = c2.get();
+                        c2.set(k + 1);
+                        match (wscript, k) {
+                            (0, _) => IoAnswer::Ret(r.count),
+                            (1, 0) => IoAnswer::Ret(1.min(r.count)),
+                            (1, _) => IoAnswer::Ret(r.count),
+                            (2, _) => IoAnswer::Err(libc::EIO),
+                            (3, 0) => IoAnswer::Ret(1.min(r.count)),
+                            (3, _) => IoAnswer::Err(libc::ENOSPC),
+                            (4, 0) => IoAnswer::Err(libc::EINTR),
+                            (4, _) => IoAnswer::Ret(r.count),
+                            _ => IoAnswer::Ret(0),
+                        }
+                    });
+                    let names = ["full", "short then the rest", "EIO at once", "one byte then ENOSPC", "EINTR then full", "accepts nothing"];
+                    let describe = || (format!("{}/{}/fd-write", v.which, what), format!("addr {:#x} len {} sink: {} exact={}", a, len, names[wscript], exact), json!({"layout": layout.regs, "page_size": p, "addr": a, "count": len, "sink": names[wscript], "exact": exact}));
+                    t += 1;
+                    let r = crate::crash::guarded(v.ctx, &describe, || {
+                        with_io_handler(handler, || {
+                            if exact {
+                                m.write_all_volatile_to(GuestAddress(a), &mut sink, len).is_ok()
+                            } else {
+                                m.write_volatile_to(GuestAddress(a), &mut sink, len).is_ok()
+                            }
+                        })
+                    });
+                    if r.is_none() {
+                        continue;
+                    }
+                    let after = dump();
+                    let da = dirty();
+                    let rp = || describe().2;
+                    judge_all("fd-write", &before, &after, &db, &da, Some(vec![vec![]; before.len()]), vec![vec![]; before.len()], &rp);
+                }
+            }
         }
     }
     // accessors derived through the region / memory API, then written through
@@ -971,7 +1023,7 @@ fn migration(ctx: &Ctx) -> (u64, u64) {
 pub fn run(prop: &'static str, tier: Tier, replay: Option<String>) -> i32 {
     let ctx = crate::new_ctx(prop, tier, "model_checking", &replay);
     let thorough = tier.thorough();
-    ctx.set_rule("E1, one enumeration judged by two oracles. (A) tracked VolatileSlices (plain RefSlice, RefSlice at a base offset, nested BaseSlice, ArcSlice, Option Some/None) of 16 and 24 bytes x page sizes {1,2,3,4,5,8,16,N+5} x every derivation chain of up to 2 (thorough 3) links (subslice, offset, split_at either half, get_slice, get_ref->to_slice, get_array_ref->to_slice / ref_at->to_slice; arguments from the boundary alphabet of the page size) x every write and read path of the container alphabet through the derived accessor x start bitmaps clean / checkerboard / all dirty; (B) one mmap region and (C) guest memory with two adjacent regions and a hole, page sizes as above: every route of the byte-access interface at every (address, length), descriptor reads through the real raw-fd adapter over interposed read(2) (full, short, failing after touching a prefix, EINTR), accessors derived through the region/memory API, and write;reset;write histories; all histories of 3 (thorough 5) steps over an alphabet of 14 memory / reset / harvest / reset-range operations with memory and bitmap carried over (also on containers of 136 / 200 / 528 bytes whose bitmaps span two or three 64-page words, with writes and resets straddling the word boundary). C05: every byte that differs from the pre-operation snapshot must be dirty in the owning region's bitmap at the region's own offset; plus (E3) all interleavings of one tracked write (9 write paths) with one fetch-and-clear consumer that copies the reported pages - after a final pass the consumer's image must equal guest memory. C16: dirty-after == dirty-before U pages overlapping the bytes the reference model says were written, and in the histories a reset / reset-range / fetch-and-clear leaves exactly the other pages dirty and reports exactly what was dirty (a failing descriptor read may additionally mark its whole target). State = (memory contents, dirty set); every transition runs on the real objects.");
+    ctx.set_rule("E1, one enumeration judged by two oracles. (A) tracked VolatileSlices (plain RefSlice, RefSlice at a base offset, nested BaseSlice, ArcSlice, Option Some/None) of 16 and 24 bytes x page sizes {1,2,3,4,5,8,16,N+5} x every derivation chain of up to 2 (thorough 3) links (subslice, offset, split_at either half, get_slice, get_ref->to_slice, get_array_ref->to_slice / ref_at->to_slice; arguments from the boundary alphabet of the page size) x every write and read path of the container alphabet through the derived accessor x start bitmaps clean / checkerboard / all dirty; (B) one mmap region and (C) guest memory with two adjacent regions and a hole, page sizes as above: every route of the byte-access interface at every (address, length), descriptor reads through the real raw-fd adapter over interposed read(2) (full, short, failing after touching a prefix, EINTR), descriptor writes out of guest memory over interposed write(2) (full, short, EIO at once, ENOSPC after a prefix, EINTR, accepting nothing: nothing may be marked), accessors derived through the region/memory API, and write;reset;write histories; all histories of 3 (thorough 5) steps over an alphabet of 14 memory / reset / harvest / reset-range operations with memory and bitmap carried over (also on containers of 136 / 200 / 528 bytes whose bitmaps span two or three 64-page words, with writes and resets straddling the word boundary). C05: every byte that differs from the pre-operation snapshot must be dirty in the owning region's bitmap at the region's own offset; plus (E3) all interleavings of one tracked write (9 write paths) with one fetch-and-clear consumer that copies the reported pages - after a final pass the consumer's image must equal guest memory. C16: dirty-after == dirty-before U pages overlapping the bytes the reference model says were written, and in the histories a reset / reset-range / fetch-and-clear leaves exactly the other pages dirty and reports exactly what was dirty (a failing descriptor read may additionally mark its whole target). State = (memory contents, dirty set); every transition runs on the real objects.");
     ctx.assume("raw-pointer writes are exempt as documented; marks through a bare BaseSlice with wrapping offsets are outside both oracles");
     if ctx.replay_of.is_some() {
         println!("replay: the enumeration is deterministic; re-running the quick tier and reporting whether the recorded key fails again");
